@@ -181,6 +181,9 @@ void harness(void)
 		};
 		int b = symx_u8("buffer");
 		symx_assume(b < 3);
+#ifdef BUFSEL
+		symx_assume(b == BUFSEL);
+#endif
 		b = symx_conc(b);
 		for (r = 0; r < NLN; r++)
 			setline(r, bufs[b][r]);
@@ -210,6 +213,9 @@ void harness(void)
 	cnt = symx_conc(symx_u8("count") % NCNT);	/* 0: none, else 2, 3 */
 	m = symx_u8("motion");
 	symx_assume(m < NMOT);
+#ifdef MOTMASK
+	symx_assume((MOTMASK >> m) & 1);
+#endif
 	m = symx_conc(m);
 	rr = r0;
 	ro = o0;
@@ -273,7 +279,11 @@ void harness(void)
 	symx_observe_mem("file", file, flen);
 	env_lines = "5";
 	env_columns = "30";
+#ifdef ORDERON
+	env_exinit = "set nohl | set noru";	/* order stays on: lines with multi-byte characters take the reordering path */
+#else
 	env_exinit = "set nohl | set noru | set noorder | set noshape";
+#endif
 	vih_run_vi("f");
 #ifdef OPER
 	/* C08-H2: the region of d<motion> is the span between the cursor and the reference target:
